@@ -2,6 +2,7 @@ package main
 
 import (
 	"bytes"
+	"context"
 	"crypto/tls"
 	"encoding/json"
 	"fmt"
@@ -9,6 +10,7 @@ import (
 	"net"
 	"net/http"
 	"os"
+	"path/filepath"
 	"sort"
 	"strings"
 	"sync"
@@ -35,6 +37,7 @@ type Daemon struct {
 	statsBase string
 	bmu       sync.Mutex
 	Log       *authLog
+	sockDir   string // set when the plaintext HTTP listener is a unix socket (every third daemon)
 }
 
 // authLog keeps nsqd's own explanation of failed auth queries (it hides them from the client)
@@ -79,6 +82,13 @@ func StartDaemon(pol Policy, certDir string, certs *Certs, scratch string, idx i
 	opts.TCPAddress = "127.0.0.1:0"
 	opts.HTTPAddress = "127.0.0.1:0"
 	opts.HTTPSAddress = "127.0.0.1:0"
+	if idx%3 == 2 {
+		// --http-address may name a unix socket: the same policies apply to what arrives there
+		if sd, err := os.MkdirTemp("", "c11s"); err == nil {
+			d.sockDir = sd
+			opts.HTTPAddress = filepath.Join(sd, "h.sock")
+		}
+	}
 	opts.BroadcastAddress = "127.0.0.1"
 	opts.DataPath = d.dir
 	// the stub auth server shares a (possibly very busy) machine with everything else: nsqd's defaults of 2 s to
@@ -123,10 +133,14 @@ func StartDaemon(pol Policy, certDir string, certs *Certs, scratch string, idx i
 	go func() { d.done <- d.n.Main() }()
 	d.TCP = d.n.RealTCPAddr().String()
 	d.HTTP = d.n.RealHTTPAddr().String()
+	if d.sockDir != "" {
+		d.HTTP = "nsqd.sock"
+	}
 	d.HTTPSPort = d.n.RealHTTPSAddr().Port
 	// the observer's own access to GET /stats: plaintext unless the policy refuses plaintext HTTP
 	tr := &http.Transport{MaxIdleConnsPerHost: 64, IdleConnTimeout: 30 * time.Second,
 		TLSClientConfig: certs.Config("signed")}
+	d.unixDial(tr)
 	d.stats = &http.Client{Transport: tr, Timeout: 90 * time.Second}
 	if pol.EffTLS() == "yes" {
 		d.statsBase = fmt.Sprintf("https://127.0.0.1:%d", d.HTTPSPort)
@@ -147,6 +161,24 @@ func (d *Daemon) Stop() {
 	}
 	d.stats.CloseIdleConnections()
 	os.RemoveAll(d.dir)
+	if d.sockDir != "" {
+		os.RemoveAll(d.sockDir)
+	}
+}
+
+// unixDial: plaintext requests to host "nsqd.sock" go to the daemon's unix socket (TLS requests keep their TCP address)
+func (d *Daemon) unixDial(tr *http.Transport) {
+	if d.sockDir == "" {
+		return
+	}
+	sock := filepath.Join(d.sockDir, "h.sock")
+	tr.DialContext = func(ctx context.Context, network, addr string) (net.Conn, error) {
+		var nd net.Dialer
+		if strings.HasPrefix(addr, "nsqd.sock") {
+			return nd.DialContext(ctx, "unix", sock)
+		}
+		return nd.DialContext(ctx, network, addr)
+	}
 }
 
 func (d *Daemon) base() string {
@@ -233,6 +265,7 @@ func (d *Daemon) Effects(prefix string) (Effects, error) {
 func (d *Daemon) HTTPRequest(port, cert, route, prefix string) (int, string) {
 	var base string
 	tr := &http.Transport{DisableKeepAlives: true}
+	d.unixDial(tr)
 	if port == "http" {
 		base = "http://" + d.HTTP
 	} else {
